@@ -55,6 +55,9 @@ pub fn gen_op(r: &mut Rng, st: &Store, pool: &Pool, cfg: &HistCfg) -> Op {
         return if cfg.with_clonep && r.chance(1, 2) { ClonePrefixes(h, vec![]) } else { CloneNode(h) };
     }
     if cfg.with_rmws && r.chance(cfg.rmws_pct, 100) {
+        // one call in three is made on the root of a tree: the whole depth of the tree is then below the node the call names
+        let roots = st.roots();
+        if r.chance(1, 3) && !roots.is_empty() { return RemoveWs(*r.pick(&roots)); }
         return RemoveWs(pick(r, st, &live, "DET", 35));
     }
     match r.below(100) {
@@ -100,7 +103,11 @@ pub fn gen_op(r: &mut Rng, st: &Store, pool: &Pool, cfg: &HistCfg) -> Op {
         95..=96 => TextContentMut(pick(r, st, &live, "E", b), text(r)),
         97 => Cons(r.chance(1, 2)),
         98 => NewDocWith(pick(r, st, &live, "E", b)),
-        _ => if cfg.with_rmws { RemoveWs(pick(r, st, &live, "DE", b)) } else { Detach(pick(r, st, &live, "ETCP", b)) },
+        _ => if cfg.with_rmws {
+            // half of the calls are made on the root of a tree (the whole depth of the tree is then below the node the call names)
+            let roots = st.roots();
+            if r.chance(1, 2) && !roots.is_empty() { RemoveWs(*r.pick(&roots)) } else { RemoveWs(pick(r, st, &live, "DE", b)) }
+        } else { Detach(pick(r, st, &live, "ETCP", b)) },
     }
 }
 
@@ -127,11 +134,20 @@ pub fn run_history(case: &str, pid: &str, seed_rng: &mut Rng, start: &[ANode], o
     let mut obs: Vec<String> = vec![];
     let mut removed_seen: std::collections::BTreeSet<Handle> = Default::default();
     let nsteps = ops_in.as_ref().map(|v| v.len()).unwrap_or(cfg.steps);
+    // C06 "a refused call changes NOTHING": besides the comparison of the store before and after the refused call, a copy of the
+    // Xot taken before the call (which never sees the refused call) goes through the following calls too: whatever the refusal
+    // left behind inside the Xot (a switch, a cache) would make the two stores part ways
+    let mut shadow: Option<(Store, usize, String)> = None;
+    let copy_store = |st: &Store| Store { xot: st.xot.clone(), reg: Reg { nss: st.reg.nss.clone(), prefixes: st.reg.prefixes.clone(), names: st.reg.names.clone() }, known: st.known.clone(), ever_unconsolidated: st.ever_unconsolidated, cons_off: st.cons_off };
+    let plain = |t: String| -> String { t.split(' ').map(strip_handle).collect::<Vec<_>>().join(" ") };
     for k in 0..nsteps {
         let op = match &ops_in {
             Some(v) => v[k].clone(),
             None => gen_op(seed_rng, &st, &pool, cfg),
         };
+        // a given sequence ends where it names a node an earlier call of it has destroyed (or that was never there)
+        if ops_in.is_some() && op_nodes(&op).iter().any(|h| !st.known.contains_key(h) || !st.live(*h)) { break; }
+        let pre_copy = if (pid == "C06" || pid == "ALL") && shadow.is_none() { Some(copy_store(&st)) } else { None };
         let before = snapshot(&st);
         let before_forest = if pid == "C05" || pid == "ALL" { Some(oforest(&st)) } else { None };
         let c18_before = if pid == "C18" { Some(oforest(&st)) } else { None };
@@ -146,6 +162,23 @@ pub fn run_history(case: &str, pid: &str, seed_rng: &mut Rng, start: &[ANode], o
             _ => op,
         };
         let after = snapshot(&st);
+        // the copy that never saw the refused call follows
+        if let Some((sh, since, refused)) = shadow.as_mut() {
+            if op_nodes(&op).iter().all(|h| sh.known.contains_key(h)) && k <= *since + 8 {
+                let o2 = exec(sh, &op);
+                sh.refresh();
+                stats.bump("c06.shadow_steps");
+                if outcome_str(&o2).split(':').next() != outcome_str(&outcome).split(':').next() || plain(sh.readback()) != plain(st.readback()) {
+                    out.fail(case, "refused-call-left-a-trace", &format!("step {}: `{}` behaves differently after the refused call of step {} (`{}`) than in a copy of the Xot that never saw that call: {} / {}", k, op_str(&op), since, refused, plain(st.readback()), plain(sh.readback())));
+                    shadow = None;
+                }
+            } else {
+                shadow = None;
+            }
+        }
+        if let (Outcome::Err(_), Some(c)) = (&outcome, pre_copy) {
+            if shadow.is_none() { shadow = Some((c, k, op_str(&op))); stats.bump("c06.shadows_started"); }
+        }
         stats.bump(&format!("op.{}", op_str(&op).split(' ').next().unwrap()));
         stats.bump(match &outcome { Outcome::Ok(_) => "outcome.ok", Outcome::Err(_) => "outcome.err", Outcome::Panic => "outcome.panic" });
         // ---- C06: a refusal changes nothing; no panic apart from the documented ones
@@ -345,6 +378,57 @@ pub fn main_for(pid: &str) {
                 stats.bump("stream.exhaustive_small_scope");
                 out.imp(&format!("{} {}", case, obs));
             }
+        }
+    }
+    // ---- exhaustive three-call histories on one small forest (state that persists inside the Xot between calls — a cache, a
+    // switch, a remembered insertion point — shows only in a SEQUENCE of calls): an element with a declaration, an attribute, an
+    // element child and a text child, next to a parentless element, a parentless attribute node and a parentless text; twenty
+    // calls around that element (prepend / append / insert of the parentless nodes and of its own children, detach / remove /
+    // any_append of its attribute and namespace nodes, map inserts, replace, wrap, the consolidation switch), every sequence of
+    // three of them: 8000 histories, all in the thorough tier, a quarter (chosen by the seed) in the quick tier
+    {
+        let mut tmp = Store::new();
+        let pool = make_pool(&mut tmp.xot, &mut tmp.reg, true);
+        let name = pool.names[0];
+        let start = vec![
+            ANode::Doc(vec![ANode::Elem { name, ns: vec![(pool.prefixes[1], pool.uris[1])], attrs: vec![(pool.attr_names[0], "v".into())],
+                                          kids: vec![ANode::Elem { name, ns: vec![], attrs: vec![], kids: vec![] }, ANode::Text("t".into())] }]),
+            ANode::Elem { name, ns: vec![], attrs: vec![], kids: vec![] },
+            ANode::Attr(pool.attr_names[3], "y".into()),
+            ANode::Text("u".into()),
+        ];
+        let mut probe = Store::new();
+        let _ = make_pool(&mut probe.xot, &mut probe.reg, true);
+        let roots: Vec<xot::Node> = start.iter().map(|t| { let n = build(&mut probe.xot, &probe.reg, t); probe.learn(n); n }).collect();
+        probe.refresh();
+        let x = &probe.xot;
+        let e = x.first_child(roots[0]).unwrap();
+        let (a1, n1) = (x.attribute_nodes(e).next().unwrap(), x.namespaces(e).nodes().next().unwrap());
+        let c1 = x.first_child(e).unwrap();
+        let t1 = x.next_sibling(c1).unwrap();
+        let (e, a1, n1, c1, t1, w, ra, rt) = (handle(e), handle(a1), handle(n1), handle(c1), handle(t1), handle(roots[1]), handle(roots[2]), handle(roots[3]));
+        let calls: Vec<Op> = vec![
+            Op::Prepend(e, w), Op::Prepend(e, rt), Op::Append(e, w), Op::Append(e, rt), Op::InsertBefore(c1, w), Op::InsertAfter(t1, w),
+            Op::Detach(a1), Op::Detach(n1), Op::Detach(c1), Op::Detach(t1), Op::Remove(a1), Op::Remove(c1),
+            Op::AnyAppend(e, ra), Op::AnyAppend(w, a1), Op::AppendAttrNode(e, a1), Op::SetAttr(e, pool.attr_names[6], "z".into()),
+            Op::SetNs(e, pool.prefixes[2], pool.uris[2]), Op::Replace(c1, w), Op::Wrap(t1, name), Op::Cons(false),
+        ];
+        let n_calls = calls.len();
+        let cfg = HistCfg { steps: 3, refusal_bias: 0, with_clonep: false, with_rmws: false, rmws_pct: 0, clone_pct: 0 };
+        let mut r = base.fork(u64::MAX - 2);
+        let quarter = (a.seed % 4) as usize;
+        for idx in 0..n_calls * n_calls * n_calls {
+            if a.tier != "thorough" && idx % 4 != quarter { continue; }
+            let seq = vec![calls[idx / (n_calls * n_calls)].clone(), calls[(idx / n_calls) % n_calls].clone(), calls[idx % n_calls].clone()];
+            // a call on a node an earlier call of the sequence has destroyed cannot be made: such sequences end there
+            let case = format!("y{}", idx);
+            let (tables, init, ops, obs) = run_history(&case, pid, &mut r, &start, Some(seq), &cfg, &mut out, &mut stats, true);
+            let ops_text: Vec<String> = ops.iter().map(op_str).collect();
+            let line = format!("{} {} | {} | {}", case, tables, init, ops_text.join(";"));
+            out.case(&line);
+            stats.case(&line, true);
+            stats.bump("stream.exhaustive_three_calls");
+            out.imp(&format!("{} {}", case, obs));
         }
     }
     // ---- value setters, exhaustively on one forest that has every kind of node: Comment::set with bodies around the refused
